@@ -266,11 +266,11 @@ def ds_standin():
                     break
             if viol:
                 break
-        for _ in range(100 if tier != "thorough" else 1500):
+        for it in range(600 if tier != "thorough" else 6000):
             if viol:
                 break
-            m = rng.randrange(1, 9)
-            r = {"n": m, "unions": [[rng.randrange(m), rng.randrange(m)] for _ in range(rng.randrange(0, 8))]}
+            m = rng.randrange(1, 9) if it % 3 else rng.randrange(9, 13)
+            r = {"n": m, "unions": [[rng.randrange(m), rng.randrange(m)] for _ in range(rng.randrange(0, 8 if it % 3 else 12))]}
             evals += 1
             seen.add(repr(r))
             if len(samples) < 3:
@@ -279,7 +279,7 @@ def ds_standin():
             if w:
                 viol.append((w, r))
         return dict(evaluations=evals, distinct_nontrivial=len(seen), violations=viol, samples=samples,
-                    rule="all union histories of length <= 2 (3 thorough) on 5 elements and random histories <= 7 on <= 8 elements, against a naive relabelling partition: unite result, len, to_list, find-equivalence after every step, binary() = each two-block coarsening once")
+                    rule="all union histories of length <= 2 (3 thorough) on 5 elements and random histories <= 11 on <= 12 elements, against a naive relabelling partition: unite result, len, to_list, find-equivalence after every step, binary() = each two-block coarsening once")
 
     sd = Standin("disjoint_set:partition-and-coarsenings", run, describe="bounded: histories <= 2/3 on 5 elements + random")
     sd.replay = check_ds
